@@ -89,6 +89,7 @@ func c04Prop(t *testing.T, k *verifkit.Kit) func(c c04Case) error {
 			sc.Events = append(sc.Events, advEvent{AtNS: f.AtNS, Kind: "scrape", From: f.From, Value: f.Value, Msg: "flip"})
 		}
 		var obs []c04Obs
+		var h *crhttp.Handler
 		hook := func(w *simWorld, a *Advertiser, ev *advEvent) {
 			if ev == nil {
 				return
@@ -107,7 +108,10 @@ func c04Prop(t *testing.T, k *verifkit.Kit) func(c c04Case) error {
 					obs = append(obs, c04Obs{At: now, Path: "scrape", Iface: ifi.Name, Fwd: samples[ifiForwarding][ifi.Name], Miscfg: mis})
 				}
 			}
-			h := crhttp.NewHandler(log.New(io.Discard, "", 0), simState{w}, config.Config{Interfaces: w.ifis}, nil)
+			// one handler for the life of the daemon, as main.go builds it (state kept between requests shows)
+			if h == nil {
+				h = crhttp.NewHandler(log.New(io.Discard, "", 0), simState{w}, config.Config{Interfaces: w.ifis}, nil)
+			}
 			rec := httptest.NewRecorder()
 			h.ServeHTTP(rec, httptest.NewRequest("GET", "/_/api/interfaces", nil))
 			var body struct {
